@@ -7,6 +7,7 @@ package interceptor
 // the wiring layer in package proxy checks that order on a really assembled server).
 
 import (
+	"bytes"
 	"context"
 	"fmt"
 	"testing"
@@ -30,6 +31,9 @@ type c16Case struct {
 	Translation bool     `json:"translation"` // namespace translation configured (request carries remote names)
 	Bypass      bool     `json:"bypass"`      // s2s-request-translation: false header
 	Companion   bool     `json:"companion"`
+	// Corrupt: (blob paths, with companion) the companion event's identity string is overwritten with invalid UTF-8
+	// after encoding, so the blob no longer decodes and cannot be repaired (not a failure message)
+	Corrupt bool `json:"corrupt,omitempty"`
 }
 
 const (
@@ -79,6 +83,10 @@ func c16Run(c c16Case) error {
 		c12AddCompanion(req.ProtoReflect())
 	}
 	vfshared.FillEmptyNamespaces(req.ProtoReflect(), allowedName)
+	corrupted := false
+	if c.Corrupt && c.Companion {
+		corrupted = c16CorruptBlobs(req.ProtoReflect())
+	}
 	original := proto.Clone(req)
 	// merged paths sharing a oneof or a singular blob overwrite each other: take the truth from the final message
 	probe := &vfshared.RefTranslator{NS: map[string]string{forbiddenName: forbiddenName}}
@@ -117,6 +125,14 @@ func c16Run(c c16Case) error {
 	}
 	_, err := build(0)(ctx, req)
 	alwaysDenied := m.Service == "workflow" && (m.Name == "RegisterNamespace" || m.Name == "DeprecateNamespace")
+	if corrupted {
+		// a blob that cannot be decoded cannot be checked: a request hiding a forbidden namespace in it must be refused
+		// (fail closed); for an all-allowed request the statement is silent, so nothing is asserted
+		if anyForbidden && (status.Code(err) != codes.PermissionDenied || called != 0) {
+			return fmt.Errorf("%s: forbidden namespace inside an undecodable (invalid UTF-8) history blob at %v was not refused (err=%v, handler calls=%d)", m.Name, c.Paths, err, called)
+		}
+		return nil
+	}
 	if anyForbidden || alwaysDenied {
 		if status.Code(err) != codes.PermissionDenied {
 			return fmt.Errorf("%s with a forbidden namespace at %v (forbidden=%v): want PermissionDenied, got err=%v", m.Name, c.Paths, c.Forbidden, err)
@@ -141,6 +157,53 @@ func c16Run(c c16Case) error {
 		return fmt.Errorf("%s allowed request reached the handler modified: %s", m.Name, vfshared.DiffSummary(seen, want))
 	}
 	return nil
+}
+
+// c16CorruptBlobs overwrites the companion marker inside every event blob with invalid UTF-8 bytes of equal length.
+func c16CorruptBlobs(m protoreflect.Message) bool {
+	any := false
+	m.Range(func(fd protoreflect.FieldDescriptor, v protoreflect.Value) bool {
+		if fd.IsMap() {
+			if fd.MapValue().Message() != nil {
+				v.Map().Range(func(_ protoreflect.MapKey, mv protoreflect.Value) bool {
+					any = c16CorruptBlobs(mv.Message()) || any
+					return true
+				})
+			}
+			return true
+		}
+		if fd.Message() == nil {
+			return true
+		}
+		if fd.Message().FullName() == "temporal.api.common.v1.DataBlob" {
+			fix := func(bm protoreflect.Message) {
+				df := bm.Descriptor().Fields().ByName("data")
+				data := append([]byte{}, bm.Get(df).Bytes()...)
+				if i := bytes.Index(data, []byte("companion")); i >= 0 {
+					copy(data[i:], []byte("\xff\xfe\xfd\xfc\xfb\xfa\xf9\xf8\xf7"))
+					bm.Set(df, protoreflect.ValueOfBytes(data))
+					any = true
+				}
+			}
+			if fd.IsList() {
+				for i := 0; i < v.List().Len(); i++ {
+					fix(v.List().Get(i).Message())
+				}
+			} else {
+				fix(v.Message())
+			}
+			return true
+		}
+		if fd.IsList() {
+			for i := 0; i < v.List().Len(); i++ {
+				any = c16CorruptBlobs(v.List().Get(i).Message()) || any
+			}
+		} else {
+			any = c16CorruptBlobs(v.Message()) || any
+		}
+		return true
+	})
+	return any
 }
 
 func c16Fail(t interface{ Fatalf(string, ...any) }, st *vfshared.Stats, part string, c any, err error) {
@@ -223,6 +286,13 @@ func TestVF_C16_Paths(t *testing.T) {
 						}
 						c16Classify(st, c, []vfshared.Path{p})
 						n++
+						if companion && forbidden {
+							c.Corrupt = true
+							if err := c16Run(c); err != nil {
+								c16Fail(t, st, part, c, err)
+							}
+							st.Case(vfshared.Fingerprint(c), true, "forbidden_inside_undecodable_blob")
+						}
 					}
 				}
 			}
